@@ -587,7 +587,7 @@ class Exec:
                 if key[0] == 'alloc' or (key[0] == 'cell') or (key[0] == 'ghost' and str(key[1]).startswith(('visited_', 'strpos_'))):
                     mod.add(key)
             for key, locs in targets.items():
-                if all(l is not None for l in locs) and key[0] in ('f', 'el', 'cell', 'mdom', 'mval', 'msize'):
+                if all(l is not None for l in locs) and (key[0] in ('f', 'el', 'cell', 'mdom', 'mval', 'msize') or (key[0] == 'ghost' and len(key) > 3)):
                     st.locs[key] = locs
         else:
             mod = self.loop_modset(h)
@@ -720,7 +720,13 @@ class Exec:
                 if self.heap.get(key).eq(st.head_heap.get(key)):
                     continue
                 if key not in st.mod:
-                    self.oblige('loopframe', self.heap.get(key) == st.head_heap.get(key), label='L%d.%s' % (st.ordinal, '_'.join(map(str, key))))
+                    ak0 = alloc_key_of(key)
+                    if ak0 is not None and key[0] != 'alloc':
+                        # objects allocated inside the iteration are not constrained by the frame
+                        g_ = z3.ForAll([fr], z3.Implies(fr <= st.head_heap.get(ak0), self.heap.get(key)[fr] == st.head_heap.get(key)[fr]))
+                    else:
+                        g_ = self.heap.get(key) == st.head_heap.get(key)
+                    self.oblige('loopframe', g_, label='L%d.%s' % (st.ordinal, '_'.join(map(str, key))))
                 elif key in st.locs:
                     ak = alloc_key_of(key)
                     conds = [fr != l for l in st.locs[key]]
